@@ -243,6 +243,10 @@ def run(ctx):
     r4.check(okp, 'pqadd-reads-the-time-back-from-the-channel-file-mtime', pa.unit + ':pqadd', 'pechan[c].dt = st.st_mtime after stat of the channel file')
     r4.expect_min(7)
 
+    r6 = rep.rule('C15.6-wake-up-for-retries', 'R-TABLE', 'pass_selprep over every combination of open passes, job and delivery slots and queue contents: the daemon asks to be woken at the earliest due time of every channel queue it can serve (a retry whose time has passed is not slept over)')
+    attach(r6, qsend.selprep_tables(db, names=('pass_selprep',)), prefixes=['selprep:'])
+    r6.expect_min(1)
+
     r5 = rep.rule('C15.5-heap-operations', 'R-TABLE', 'prioq.c over every key vector {0..n-1}^n, n <= %d: after inserting the entries, prioq_min names an entry with the smallest time and prioq_delmin removes exactly that entry, until the queue is empty; no operation touches a cell at or beyond len' % ctx.deep(4, 5))
     for inst, v in sorted(heap_sites(db, rep, prog, ctx.deep(4, 5)).items()):
         r5.check(v[0], inst, v[1], v[2], v[3])
